@@ -69,6 +69,37 @@ Proof.
   rewrite Z.div_add by lia. ring.
 Qed.
 
+(* tick numbering does not depend on where the time scale has its origin relative to the period
+   grid: moving the first commit and the commit by the same whole number of periods changes nothing,
+   and a commit k whole periods later is k periods further on (negative k included) *)
+Lemma periods_shift_invariant : forall t first d k, 0 < d ->
+  (t + k * d - spec_t0 (first + k * d) d) / d = (t - spec_t0 first d) / d.
+Proof.
+  intros t first d k Hd. rewrite !periods_between by exact Hd.
+  rewrite !Z.div_add by lia. ring.
+Qed.
+
+Lemma periods_additive : forall t first d k, 0 < d ->
+  (t + k * d - spec_t0 first d) / d = (t - spec_t0 first d) / d + k.
+Proof.
+  intros t first d k Hd. rewrite !periods_between by exact Hd.
+  rewrite Z.div_add by lia. ring.
+Qed.
+
+(* the start of the first period is itself translated with the first commit: t0 is anchored to the
+   period grid of the time scale's zero, not to the first commit *)
+Lemma spec_t0_shift : forall first d k, 0 < d -> spec_t0 (first + k * d) d = spec_t0 first d + k * d.
+Proof.
+  intros first d k Hd. unfold spec_t0. rewrite Z.div_add by lia. ring.
+Qed.
+
+(* shifting by anything that is NOT a whole number of periods can change the numbering: the grid is
+   the one of the zero time (this is what an implementation counting periods from another epoch gets
+   wrong whenever the two epochs are not a whole number of periods apart) *)
+Lemma periods_shift_not_invariant :
+  exists t first d e, 0 < d /\ (t + e - spec_t0 (first + e) d) / d <> (t - spec_t0 first d) / d.
+Proof. exists 10, 9, 10, 1. split; [lia|]. vm_compute. discriminate. Qed.
+
 (* ------------------------------------------------------------------ Time.Sub, int64 *)
 
 Lemma time_sub_bounds : forall t u, min_duration <= time_sub t u <= max_duration.
